@@ -37,19 +37,28 @@ class ServicesManager:
         # a new service created with the same sid just to send init or control messages will not affect the database.
         service = Service(sid, websocket)
 
-        if sid in self._service_dict:
-            prev_server = self._service_dict[sid]
-            reason = f"Service {short_sid} is already running, we need to wait for the previous connection to close..."
-            logger.warning(reason)
-            # In the previous practice, if the previous connection was not closed,
-            # the later connection was closed, which resulted in a anomalous behavior of the client.
-            # So we need to send a control message to the client to tell it
-            # to wait for the previous connection to close.
-            service.send_message(MsgType.CONTROL, reason.encode('utf8'))
-            await prev_server.wait_closed()  # wait for the previous socket to close
+        has_sent_control_message = False
+        while True:
+            # Check and register under the lock: when several connections wait for the same previous one,
+            # only one of them may take its place, the others have to wait for that one in turn.
+            async with self._access_dict_lock:
+                prev_server = self._service_dict.get(sid)
+                if prev_server is None:
+                    self._service_dict[sid] = service
+                    break
 
-        async with self._access_dict_lock:
-            self._service_dict[sid] = service
+            if not has_sent_control_message:
+                reason = f"Service {short_sid} is already running, " \
+                         f"we need to wait for the previous connection to close..."
+                logger.warning(reason)
+                # In the previous practice, if the previous connection was not closed,
+                # the later connection was closed, which resulted in a anomalous behavior of the client.
+                # So we need to send a control message to the client to tell it
+                # to wait for the previous connection to close.
+                service.send_message(MsgType.CONTROL, reason.encode('utf8'))
+                has_sent_control_message = True
+            await prev_server.wait_closed()  # wait for the previous socket to close
+            await asyncio.sleep(0)  # always yield, so that the cleanup of the previous connection can run
         clean_task = asyncio.create_task(self.clean_service_when_close_connection(sid, websocket))
         await service.start()  # run forever! do not use asyncio.create_task
         await clean_task
